@@ -4,9 +4,11 @@ EXTENDS WalletProtocol
 NoPre     == <<>>
 (* node 2 owns attestation 1 (made by node 2's attester, node 2 itself here), two bit-pairs *)
 PreOwn2   == <<[owner |-> 2, by |-> 2, ans |-> <<1, 2>>]>>
+PreOwn4   == <<[owner |-> 2, by |-> 2, ans |-> <<1, 2, 0, 1>>]>>
 PreOwn2x3 == <<[owner |-> 2, by |-> 2, ans |-> <<1, 2, 0>>]>>
 (* the adversary (node 3) owns an attestation it made itself *)
 PreAdv    == <<[owner |-> 2, by |-> 2, ans |-> <<1, 2>>], [owner |-> 3, by |-> 3, ans |-> <<1, 1>>]>>
+PreAdvOnly == <<[owner |-> 3, by |-> 3, ans |-> <<1, 1>>]>>
 Vals1     == {<<1, 2>>}
 Vals2     == {<<1, 2>>, <<0, 0>>}
 (* simulation of the challenge window: 12 bit-pairs > Window = 10 *)
